@@ -1193,6 +1193,14 @@ impl Server {
         let mut results = Vec::new();
         for cmd_parts in commands_to_execute.iter() {
             match self.process_command_parts(&cmd_parts, db_index) {
+                // A blocking pop queued in a transaction finds nothing to pop: inside MULTI/EXEC it
+                // never blocks but answers nil at once. (It had registered the pseudo connection 0
+                // as blocked and left a NoResponse marker in the reply array, which cannot be
+                // serialised - the client then never got any EXEC reply.)
+                Ok(RespFrame::NoResponse) => {
+                    let _ = self.blocking_manager.unregister_client(db_index, 0);
+                    results.push(RespFrame::null_array());
+                }
                 Ok(response) => results.push(response),
                 Err(e) => {
                     results.push(RespFrame::error(e.to_string()));
